@@ -4,11 +4,16 @@ import (
 	"errors"
 	"fmt"
 	"net"
+	"strings"
 )
 
 var ErrInvalidAddr = errors.New("invalid IP subnet/host")
 
 func ParseIPNet(subnet string) (*net.IPNet, error) {
+	// only IPv4 is supported: every IPv6 literal (including IPv4-mapped ones) contains a colon
+	if strings.Contains(subnet, ":") {
+		return nil, ErrInvalidAddr
+	}
 	_, result, err := net.ParseCIDR(subnet)
 	if err == nil {
 		return result, err
